@@ -86,6 +86,20 @@ def build_class(run, cs):
             ns[mn] = mk_method(mn)
         elif k == "amethod":
             ns[mn] = mk_method(mn, is_async=True)
+        elif k == "alias_of":
+            ns[mn] = ns[ms["of"]]  # ``append = push``: a second public name for the same function
+        elif k == "lambda":
+            ns[mn] = (lambda self, *a: run.body(self))  # a lambda assigned in the class body (__name__ == "<lambda>")
+        elif k == "nowraps":
+            inner_f = mk_method(mn)
+
+            def _deco(f):
+                def inner(self, *a):
+                    return f(self, *a)
+
+                return inner  # a decorator that does not use functools.wraps (__name__ == "inner")
+
+            ns[mn] = _deco(inner_f)
         elif k == "dunder":
             ret = {
                 "__len__": lambda r: 3,
@@ -326,7 +340,7 @@ def expected(scn, cname, op):
         return set(), set(al)
     if kind in ("call", "acall"):
         mk = member_kind(scn, cname, op["member"])
-        if mk in ("method", "amethod", "dunder"):
+        if mk in ("method", "amethod", "dunder", "alias_of", "lambda", "nowraps"):
             return set(oc), set(oc)
         return set(), set()
     if kind == "get":
@@ -377,6 +391,13 @@ def generate(r, tier):
                 m["set"] = r.random() < 0.6
                 m["del"] = r.random() < 0.3
             c["members"].append(m)
+        if r.random() < 0.25:
+            meths = [m for m in c["members"] if m["kind"] == "method"]
+            kind_ = r.choice(["alias_of", "lambda", "nowraps"])
+            if kind_ == "alias_of" and meths:
+                c["members"].append({"name": "al%d" % level, "kind": "alias_of", "of": r.choice(meths)["name"]})
+            elif kind_ != "alias_of":
+                c["members"].append({"name": "%s%d" % ("lm" if kind_ == "lambda" else "nw", level), "kind": kind_})
         if r.random() < 0.5 and classes_shape[0] != "listlike":
             d = r.choice(DUNDERS)
             c["members"].append({"name": d, "kind": "dunder"})
@@ -488,7 +509,7 @@ def generate(r, tier):
                 op = {"op": "call", "obj": label, "member": m["name"]}
             if r.random() < 0.1 and op["op"] in ("call", "acall"):
                 op["raise"] = True
-            if r.random() < 0.15 and op["op"] == "call" and m["kind"] in ("method", "dunder"):
+            if r.random() < 0.15 and op["op"] == "call" and m["kind"] in ("method", "dunder", "alias_of", "nowraps"):
                 pubs = [y for y in members if y["kind"] == "method"]
                 if pubs:
                     op["nested"] = [r.choice(pubs)["name"]]
@@ -499,6 +520,17 @@ def generate(r, tier):
     if engine == "loop":
         # a second task that calls async public methods of the same instances
         scn["actor2"] = [dict(o, pause=r.choice([0, 1, 2])) for o in ops if o["op"] == "acall"][:4]
+        acalls = [o for o in ops if o["op"] == "acall"]
+        if acalls and r.random() < 0.35:
+            # both tasks share ONE Context object and work on different instances of the same class
+            first = acalls[0]
+            cname = None
+            for o in ops:
+                if o["op"] == "new" and o["obj"] == first["obj"]:
+                    cname = o["cls"]
+            if cname is not None and core_has_ctor_body(scn, cname):
+                scn["shared_context"] = True
+                scn["actor2"] = [{"op": "new", "cls": cname, "obj": "ob"}] + [dict(o, obj="ob", pause=r.choice([0, 1, 2, 3])) for o in acalls if o["obj"] == first["obj"]][:4]
     return scn
 
 
@@ -675,9 +707,16 @@ def _execute(scn):
     async def main():
         run.enter_actor("main")
         loop = asyncio.get_running_loop()
-        t1 = loop.create_task(actor("a", "a", ops), name="a", context=contextvars.copy_context())
+        if scn.get("shared_context"):
+            run.actor_by_task = True
+            # both tasks are given the very same Context object (marks are set and cleared in non-LIFO order in it)
+            shared = contextvars.copy_context()
+            c1 = c2 = shared
+        else:
+            c1, c2 = contextvars.copy_context(), contextvars.copy_context()
+        t1 = loop.create_task(actor("a", "a", ops), name="a", context=c1)
         await asyncio.sleep(0)
-        t2 = loop.create_task(actor("b", "b", scn.get("actor2") or []), name="b", context=contextvars.copy_context())
+        t2 = loop.create_task(actor("b", "b", scn.get("actor2") or []), name="b", context=c2)
         await asyncio.gather(t1, t2)
 
     _, vt = simloop.run_in_loop(main, contextvars.Context())
